@@ -495,20 +495,20 @@ func gen(r *rand.Rand, i int, tier string) Case {
 	o.n = []int{2, 3, 3, 4, 4, 4, 5, 5, 5, 5}[r.IntN(10)]
 	o.redef = r.IntN(100) < 60
 	o.redefMid = o.redef && r.IntN(100) < 30
-	// the dirty stream: constructs with a listed finding, kept to a minority
+	// a slot with two initargs (supplying both has a listed finding) is kept to a minority
 	switch r.IntN(20) {
-	case 0:
+	case 0, 1:
 		o.sharedArg = true
-	case 1:
+	case 2:
 		o.nilForm = true
-	case 2, 3:
+	case 3, 4:
 		o.twoArgs = true
 	}
 	o.types = r.IntN(100) < 25
 	switch r.IntN(20) {
-	case 0, 1, 2:
+	case 0, 1, 2, 3, 4:
 		o.defaults = true
-	case 3, 4:
+	case 5, 6, 7, 8:
 		o.shared = true
 	}
 	c := genDAG(r, o)
